@@ -224,7 +224,8 @@ class Tokenizer:
 
 
 def tokenize(raw_header: bytes):
-    """Flat labelled token list of a raw (kHeader) header; the tokens serialise back to exactly ``raw_header``."""
+    """Flat labelled token list of a raw (kHeader) header - or of the outer kEncodedHeader record; the tokens serialise back
+    to exactly ``raw_header``."""
     tk = Tokenizer(raw_header)
     try:
         t = tk.id("header_id")
@@ -238,6 +239,10 @@ def tokenize(raw_header: bytes):
             if t == K_FILES:
                 tk.files()
                 t = tk.id()
+        elif t == 0x17:  # kEncodedHeader: the StreamsInfo that describes the packed header
+            tk.sec.append("encoded")
+            tk.streams()
+            tk.sec.pop()
     except FormatError:
         pass
     tk.rest()
